@@ -3,7 +3,6 @@
 package litx
 
 import (
-	"bytes"
 	"fmt"
 	"go/scanner"
 	"go/token"
@@ -23,11 +22,13 @@ func RenderStmt(n *recipe.Node, b *recipe.Builder) (string, error) {
 	}
 	fr := &recipe.File{Ctor: "NewFile", Args: []recipe.Text{"p"}, Ops: []recipe.FileOp{{Op: "NoFormat"}}, Body: []*recipe.Node{n}}
 	f := b.File(fr)
-	buf := &bytes.Buffer{}
-	if err := f.Render(buf); err != nil {
+	// (File.Render, and for a sample of the outputs the File's other entry points: GoString, Save over a file
+	// that resembles the output, ...)
+	out, err := recipe.RenderFile(f)
+	if err != nil {
 		return "", err
 	}
-	s := buf.String()
+	s := string(out)
 	if !strings.HasPrefix(s, head) {
 		return "", fmt.Errorf("unexpected file head in %q", s)
 	}
